@@ -98,6 +98,17 @@ def rule_pair(ctx) -> RuleResult:
     res.inst(f"remove_children_values filters children on `child.association.name == {assoc}`", ok=ok)
     if not ok:
         res.find("ObjectBase", "remove_children_values", "association filter changed", rcv.where, "data of the other association are trimmed too (or none are)")
+    for i in [x for x in ast.walk(rcv.node) if isinstance(x, ast.If) and "association.name" in unparse(x.test)]:
+        conj = i.test.values if isinstance(i.test, ast.BoolOp) and isinstance(i.test.op, ast.And) else [i.test]
+        for c in conj:
+            if isinstance(c, ast.Call) and unparse(c.func) == "isinstance" and unparse(c.args[0]) == "child":
+                names = [unparse(x) for x in (c.args[1].elts if isinstance(c.args[1], ast.Tuple) else [c.args[1]])]
+                narrow = [nm for nm in names if nm != "Data"]
+                ok = not narrow
+                res.inst(f"remove_children_values: class filter isinstance(child, {names})", ok=ok)
+                if not ok:
+                    res.find("ObjectBase", "remove_children_values", f"children filtered by class {narrow}", f"{rcv.module.relpath}:{c.lineno}",
+                             f"only {narrow} children are trimmed: data of the other kinds (text, ...) keep their old length after a geometry removal")
     asg = [a for a in ast.walk(rcv.node) if isinstance(a, ast.Assign) and unparse(a.targets[0]) == "child.values"]
     ok = bool(asg) and all(unparse(a.value).replace(" ", "") == f"np.delete(values,{ind},axis=0)" for a in asg)
     res.inst(f"remove_children_values assigns child.values = np.delete(values, {ind}, axis=0)", ok=ok)
@@ -201,4 +212,86 @@ def rule_len(ctx) -> RuleResult:
     return res
 
 
-RULES = [rule_pair, rule_order, rule_len]
+ORDER_INSENSITIVE_CALLS = {"np.delete", "np.max", "np.min", "np.array", "np.asarray", "np.unique", "np.sort", "len", "isinstance", "np.any", "np.all",
+                           "np.atleast_1d", "np.ravel", "np.r_"}
+
+
+def rule_maskonly(ctx) -> RuleResult:
+    res = RuleResult(
+        "C07.MASKONLY",
+        "C07",
+        "in remove_vertices / remove_cells the removal indices are consumed only by operations whose result does not depend on "
+        "their order or multiplicity (np.delete, assignment into a boolean keep-mask, max/len/type tests, np.unique/np.sort "
+        "normalisation, remove_children_values) — never by arithmetic or position look-ups on the raw list",
+        floor=3,
+    )
+    p = ctx.p
+    for fn in _targets(p):
+        idx = fn.params[1]
+        parents = {}
+        for n in ast.walk(fn.node):
+            for c in ast.iter_child_nodes(n):
+                parents[c] = n
+        uses = [n for n in ast.walk(fn.node) if isinstance(n, ast.Name) and n.id == idx and isinstance(n.ctx, ast.Load)]
+        bad = []
+        for u in uses:
+            par = parents.get(u)
+            ok = False
+            if isinstance(par, ast.Call):
+                f = unparse(par.func)
+                if f in ORDER_INSENSITIVE_CALLS or f.endswith(".remove_children_values") or f.endswith(".remove_cells") or f.endswith(".remove_vertices"):
+                    ok = True
+            elif isinstance(par, ast.Subscript) and par.slice is u and isinstance(par.ctx, ast.Store):
+                # mask[indices] = False
+                ok = True
+            elif isinstance(par, ast.Compare):
+                ok = True
+            elif isinstance(par, (ast.Tuple,)) and isinstance(parents.get(par), ast.Call) and unparse(parents[par].func) == "isinstance":
+                ok = True
+            elif isinstance(par, ast.keyword):
+                ok = True
+            if not ok:
+                bad.append((u, par))
+        res.inst(f"{fn.qualname}: {len(uses)} uses of `{idx}`, order-sensitive: {len(bad)}", nontrivial=True, ok=not bad)
+        for u, par in bad[:1]:
+            res.find(fn.cls.name, fn.name, f"`{idx}` consumed by an order / multiplicity sensitive operation: {unparse(par)[:60]}", f"{fn.module.relpath}:{u.lineno}",
+                     f"the result of {fn.qualname} must not depend on the order of the removal indices or on repeated entries; "
+                     f"`{unparse(par)[:60]}` uses the raw list positionally / arithmetically")
+    return res
+
+
+def rule_count(ctx) -> RuleResult:
+    res = RuleResult(
+        "C07.COUNT",
+        "C07",
+        "in Data.copy with a mask the choice between handing over the selected values only and a full-length array blanked "
+        "outside the mask is decided by the TARGET's element count of the data's association (parent.n_cells / n_vertices)",
+        floor=1,
+    )
+    p = ctx.p
+    fn = p.func("Data.copy")
+    par = fn.params[1]
+    sub = [i for i in ast.walk(fn.node) if isinstance(i, ast.If) and any("[mask]" in unparse(s_) and "values" in unparse(s_) for s_ in i.body) and i.orelse]
+    if not sub:
+        raise AnalysisError("Data.copy: subset / fill decision not found")
+    for i in sub:
+        defs = {}
+        for a in ast.walk(fn.node):
+            if isinstance(a, ast.Assign) and isinstance(a.targets[0], ast.Name):
+                defs[a.targets[0].id] = a.value
+        leaves = set()
+        for n in ast.walk(i.test):
+            if isinstance(n, ast.Name) and n.id in defs:
+                leaves |= {unparse(x) for x in ast.walk(defs[n.id]) if isinstance(x, ast.Attribute)}
+            elif isinstance(n, ast.Attribute):
+                leaves.add(unparse(n))
+        ok = {f"{par}.n_cells", f"{par}.n_vertices"} <= leaves and any("association" in x for x in leaves)
+        res.inst(f"Data.copy: subset-vs-fill test `{unparse(i.test)[:50]}` depends on {sorted(x for x in leaves if par in x or 'association' in x)}", nontrivial=True, ok=ok)
+        if not ok:
+            res.find("Data", "copy", f"subset-vs-fill decision `{unparse(i.test)[:50]}` ignores the target's element count", f"{fn.module.relpath}:{i.lineno}",
+                     "whether the masked values must be compacted or kept full-length depends on how many vertices / cells the TARGET has; "
+                     "a test that does not look at it misplaces the values for some targets (length right, values on the wrong elements)")
+    return res
+
+
+RULES = [rule_pair, rule_order, rule_len, rule_maskonly, rule_count]
